@@ -32,6 +32,11 @@ M("c17-nested-value-locks", "R17.2",
 # benign: narrowing a guard scope, renaming, hoisting the lock into a local
 B("c17-benign-narrow-scope", (FSM, "            {\n                let mut gd = get_global!(datamodel);\n                gd.configuration.add(*s);\n                gd.statesToInvoke.add(*s);\n            }",
                               "            get_global!(datamodel).configuration.add(*s);\n            get_global!(datamodel).statesToInvoke.add(*s);"))
-B("c17-benign-rename-guard", (EXE, "        let mut guard = self.state.lock().unwrap();\n        while !guard.processors.is_empty() {\n            if let Some(pp) = guard.processors.pop() {",
-                              "        let mut st_guard = self.state.lock().unwrap();\n        while !st_guard.processors.is_empty() {\n            if let Some(pp) = st_guard.processors.pop() {"))
+# (FsmExecutor::shutdown has no named executor-state guard any more since /repo commit 5023d5a: the rename is applied to the
+#  executor-state guard of set_global_options_from_arguments and to the locals of today's shutdown)
+B("c17-benign-rename-guard", (EXE, "        let mut guard = self.state.lock().unwrap();\n        // Currently only Datamodel options are relevant. Ignore all other stuff.",
+                              "        let mut st_guard = self.state.lock().unwrap();\n        // Currently only Datamodel options are relevant. Ignore all other stuff."),
+  (EXE, "                guard\n                    .datamodel_options", "                st_guard\n                    .datamodel_options"),
+  (EXE, "        let mut processors = std::mem::take(&mut self.state.lock().unwrap().processors);\n        while let Some(pp) = processors.pop() {\n            pp.lock().unwrap().shutdown();",
+        "        let mut taken = std::mem::take(&mut self.state.lock().unwrap().processors);\n        while let Some(proc_arc) = taken.pop() {\n            proc_arc.lock().unwrap().shutdown();"))
 B("c17-benign-sender-clone-first", (EXE, "        self.state.lock().unwrap().sessions.remove(&session_id);", "        let mut st = self.state.lock().unwrap();\n        st.sessions.remove(&session_id);\n        drop(st);"))
